@@ -91,7 +91,7 @@ func c02Run(c *fw.Case, env *fw.Env) *fw.Obs {
 	for _, w := range []int{2, 3, 4, 8, 16} {
 		vs = append(vs, variant{fmt.Sprintf("workers-%d", w), t.Rows, ingCfg{Chunks: "none", Workers: w, Store: "mem", Via: "pkg"}})
 	}
-	for _, d := range []string{"|", ";", "\t"} {
+	for _, d := range []string{"|", ";", "\t", "\u00a6"} {
 		vs = append(vs, variant{"delim-" + d, t.Rows, ingCfg{Chunks: "two", Workers: 4, Store: "mem", Via: "pkg", Delim: d}})
 	}
 	if c.Seed%5 == 0 {
